@@ -166,7 +166,15 @@ def trusted_items(g):
             for k in range(n, min(n + 6, len(L))):
                 m = re.search(r"\b(fn|struct)\s+(\w+)", L[k])
                 if m:
-                    out.append(f"{m.group(1)} {m.group(2)} (external_body)"); break
+                    owner = ""
+                    if m.group(1) == "fn" and L[k].startswith((" ", "\t")):
+                        for j in range(k, max(k - 400, 0), -1):
+                            mi = re.match(r"^\s{0,4}(?:pub\s+)?(?:unsafe\s+)?impl(?:<[^>]*>)?\s+(.*?)\s*\{", L[j])
+                            if mi:
+                                owner = re.sub(r"\s+", " ", mi.group(1)) + "::"; break
+                            if re.match(r"^\s{0,4}(pub\s+)?(mod|trait)\s+(\w+)", L[j]):
+                                owner = re.match(r"^\s{0,4}(pub\s+)?(mod|trait)\s+(\w+)", L[j]).group(3) + "::"; break
+                    out.append(f"{m.group(1)} {owner}{m.group(2)} (external_body: contract assumed)"); break
         elif "assume_specification" in l:
             out.append(re.sub(r"\s+", " ", l)[:160])
         elif "exec_allows_no_decreases_clause" in l:
